@@ -76,9 +76,9 @@ Proof.
 Qed.
 Lemma known_partition_sym a b : known_partition a b = known_partition b a.
 Proof.
-  unfold known_partition, known_plus, known_default, known_newline.
+  unfold known_partition, known_plus, known_default.
   rewrite (known_two_wildcards_sym a b).
-  rewrite (Bool.orb_comm (existsb has_plus a)), (Bool.orb_comm (existsb has_newline a)), (Bool.xorb_comm (no_names a)).
+  rewrite (Bool.orb_comm (existsb has_plus a)), (Bool.xorb_comm (no_names a)).
   reflexivity.
 Qed.
 
